@@ -11,6 +11,13 @@ summ={'m3_C02c':'BinaryExpr passes nested *float64 operands through without unwr
 'm3_C07c':'scopeOf keeps an existing `<-` marker (rows merged by EXISTS navigate to the wrong scope)','m3_C09c':'`distinct=>` filters in place and overwrites the document array','m3_C10c':'ParallelJoinFunc returns while holding the mutex on the second failure: deadlock with three workers',
 'm3_C11c':'same in-place `distinct=>` change, written against the read-only property','m3_C13c':'SubqueryExpr waits for the subquery goroutines in a post-processor that runs after the slot dereference','m3_C14c':'ExistExpr skips the wait when the subquery registered no post-processor (SPINASYNC under EXISTS)',
 'm3_C16c':'unused-argument accounting by a counter: a repeated placeholder hides an unused argument','m3_C17c':'FindArrayIndex no longer tracks double-quoted literals','m3_C19c':'BETWEEN overwrites the lower-bound error with the upper-bound result'}
+
+hist.update({'m4_C01d':'caught as built (also by C15 and C05)','m4_C03d':'caught as built','m4_C04d':'caught as built','m4_C06d':'caught as built','m4_C12d':'caught as built','m4_C14d':'caught as built','m4_C16d':'caught as built',
+'m4_C08d':'missed → H_C08_options (nested evaluation equals per-inner-array evaluation under WithVars/WithConstants/SETVAR/dialect options)','m4_C09d':'missed → H_C09_pipes ({k|number} over every string ≤3 bytes of `0189.x-` against a decimal-syntax reference; {k|string} over halves); math.Mod(x,1) encoded exactly in the engine',
+'m4_C15d':'missed → H_C15_kinds_str (float32/float64/int32/int64/uint16 incl. non-dyadic float32 tenths against strings, own text and extended text); float32 %v in the engine','m4_C18d':'missed → NULL true/false branches of IF added to H_C18_scalar','m4_C20d':'missed → H_C20_keys (fractional, large and string-vs-number keys, final map contents)'})
+summ.update({'m4_C01d':'compare.Compare string fast path returns a length difference instead of -1/0/1 when one string is a prefix of the other','m4_C03d':'a new group aliases a one-row window of the input slice: appends for later members overwrite following input rows','m4_C04d':'nested-loop join reuses one merged-row map for all partners of a left row',
+'m4_C06d':'UNION skips de-duplication when one branch is empty','m4_C08d':'the per-inner-array query copy gets fresh Options without vars/completion callback','m4_C09d':'{k|number} tries ParseInt(str, 0, 64) first: "010" is 8, "0x1F" is 31','m4_C12d':'ValueTupleExpr leaves *float64 results of arithmetic inside IN lists unresolved',
+'m4_C14d':'derived table waits for its subquery goroutines only if it registered post-processors','m4_C15d':'number-vs-string comparison formats float32 at 64 bits (0.1 becomes 0.10000000149011612)','m4_C16d':'the rune after a closing single quote is swallowed by the placeholder lexer','m4_C18d':'IF(true, NULL, y) falls through to y','m4_C20d':'register keys truncate numeric names to their integer part'})
 rows=[]
 for d in sorted(glob.glob('/verif/seeded/m*')):
     n=os.path.basename(d)
